@@ -41,7 +41,7 @@ fn budget0(prop: &str, quick: bool) -> (f64, u64) {
         ("C13", true) => (20.0, 1 << 20),
         ("C13", false) => (24.0, 1 << 26),
         ("C14", true) => (16.0, 1 << 19),
-        ("C14", false) => (20.0, 1 << 24),
+        ("C14", false) => (28.0, 1 << 24),
         ("C17", true) => (16.0, 1 << 22),
         ("C17", false) => (24.0, 1 << 27),
         (_, true) => (16.0, 1 << 20),
@@ -66,6 +66,21 @@ pub fn run(ctx: &Ctx, reg: &Registry, rep: &mut Report) {
                             op: i,
                             mode: Mode::Strided { stride, offset: crate::rng::mix64(ctx.seed ^ 0x57_1de) },
                             name: format!("{} (strided 1/{})", op.name, stride),
+                        });
+                    }
+                }
+            }
+            // thorough C14: main entries whose space has 29..32 bits (every conversion of the widest
+            // generic types, all i32 / u32 / f32 sources) are too many to enumerate completely
+            // (~1.3e12 calls); they get a seed-rotated 1/16 stride on top of the hostile samples
+            if !ctx.quick() && ctx.prop == "C14" {
+                for (i, op) in reg.for_prop("C14") {
+                    let sp = op.space_log2();
+                    if !op.stub && op.fast.is_some() && op.weight >= 1.0 && sp > 28.0 && sp <= 32.0 {
+                        plans.push(Plan {
+                            op: i,
+                            mode: Mode::Strided { stride: 16, offset: crate::rng::mix64(ctx.seed ^ 0x57_1de) },
+                            name: format!("{} (strided 1/16)", op.name),
                         });
                     }
                 }
